@@ -377,6 +377,25 @@ fn spawn_worker() -> Worker {
         .stack_size(64 << 20)
         .spawn(move || {
             while let Ok((arch, intr, addr, b)) = jrx.recv() {
+                // test hooks for the watchdog / restart logic only (checks/c05.py selftest):
+                // C05_FAKE_HANG=<hex bytes> hangs on those bytes; with C05_FAKE_HANG_ONCE=<path>
+                // only while <path> does not exist (a spurious, non-reproducing expiry)
+                if let Ok(h) = std::env::var("C05_FAKE_HANG") {
+                    if h == hex(&b) {
+                        let once = std::env::var("C05_FAKE_HANG_ONCE").ok();
+                        let hang = match &once {
+                            Some(p) if std::path::Path::new(p).exists() => false,
+                            Some(p) => {
+                                let _ = std::fs::write(p, "x");
+                                true
+                            }
+                            None => true,
+                        };
+                        if hang {
+                            std::thread::sleep(std::time::Duration::from_secs(3600));
+                        }
+                    }
+                }
                 let r = fv::guard(move || {
                     let t = translator_for(arch);
                     let mut o = Options::new();
@@ -392,7 +411,7 @@ fn spawn_worker() -> Worker {
     Worker { tx, rx }
 }
 
-fn lift_once(arch: &'static str, intr: bool, addr: u64, bytes: &[u8]) -> (Outcome<BlockTranslationResult>, Option<(String, u32, String)>) {
+fn lift_once_ms(ms: u64, arch: &'static str, intr: bool, addr: u64, bytes: &[u8]) -> (Outcome<BlockTranslationResult>, Option<(String, u32, String)>) {
     *LAST_PANIC.lock().unwrap() = None;
     let mut g = WORKER.lock().unwrap();
     if g.is_none() {
@@ -400,15 +419,19 @@ fn lift_once(arch: &'static str, intr: bool, addr: u64, bytes: &[u8]) -> (Outcom
     }
     let w = g.as_ref().unwrap();
     w.tx.send((arch, intr, addr, bytes.to_vec())).expect("worker alive");
-    let r = match w.rx.recv_timeout(std::time::Duration::from_millis(TIMEOUT_MS)) {
+    let r = match w.rx.recv_timeout(std::time::Duration::from_millis(ms)) {
         Ok(r) => r,
         Err(_) => {
             *g = None; // the worker is leaked (it may be looping); the caller restarts the process
-            Outcome::Timeout(TIMEOUT_MS)
+            Outcome::Timeout(ms)
         }
     };
     let loc = if matches!(r, Outcome::Panic(_)) { LAST_PANIC.lock().unwrap().take() } else { None };
     (r, loc)
+}
+
+fn lift_once(arch: &'static str, intr: bool, addr: u64, bytes: &[u8]) -> (Outcome<BlockTranslationResult>, Option<(String, u32, String)>) {
+    lift_once_ms(TIMEOUT_MS, arch, intr, addr, bytes)
 }
 
 fn outcome_class(r: &Outcome<BlockTranslationResult>, loc: &Option<(String, u32, String)>) -> String {
@@ -428,6 +451,10 @@ struct Recorder {
     seen: HashSet<String>,
     stats: BTreeMap<String, u64>,
     timed_out: bool,
+    /// this case timed out in the previous process: second attempt, with a longer watchdog
+    confirming: bool,
+    /// set when a first timeout was seen (not logged yet: it is re-tried in a fresh process)
+    retry: bool,
 }
 
 impl Recorder {
@@ -443,7 +470,18 @@ impl Recorder {
 
     /// lifts one case and logs it (unless de-duplicated); returns false after a timeout
     fn run(&mut self, c: &Case) {
-        let (r, loc) = lift_once(c.arch, c.intr, c.addr, &c.bytes);
+        // A watchdog expiry is only logged when it reproduces in a fresh process with a three times
+        // longer watchdog: on a heavily loaded machine a descheduled worker must not be reported
+        // as a hang (a real hang is deterministic and expires again).
+        let ms = if self.confirming { 3 * TIMEOUT_MS } else { TIMEOUT_MS };
+        let (r, loc) = lift_once_ms(ms, c.arch, c.intr, c.addr, &c.bytes);
+        if matches!(r, Outcome::Timeout(_)) && !self.confirming {
+            self.bump("timeouts_retried".into());
+            self.timed_out = true;
+            self.retry = true;
+            return;
+        }
+        self.confirming = false;
         let intr = c.intr as u8;
         self.bump(format!("lifts:{}", c.arch));
         self.bump(format!("kind:{}", c.kind));
@@ -495,7 +533,8 @@ impl Recorder {
             }
             Outcome::Timeout(ms) => {
                 self.bump(format!("timeout:{}", c.arch));
-                ev["res"] = json!({ "timeout": ms });
+                let _ = ms;
+                ev["res"] = json!({ "timeout": TIMEOUT_MS });
                 self.timed_out = true;
             }
         }
@@ -703,14 +742,18 @@ fn random_case(rng: &mut Rng, arch: &'static str, corpus: &[Vec<u8>]) -> Case {
 // --------------------------------------------------------------------------------------
 // main
 // --------------------------------------------------------------------------------------
-fn restart_after_timeout(next: u64) -> ! {
+fn restart_after_timeout(next: u64, confirm: bool) -> ! {
     use std::os::unix::process::CommandExt;
     let mut args: Vec<String> = std::env::args().skip(1).collect();
-    if let Some(i) = args.iter().position(|a| a == "--skip") {
-        args.drain(i..i + 2);
+    for key in ["--skip", "--confirm"] {
+        if let Some(i) = args.iter().position(|a| a == key) {
+            args.drain(i..i + 2);
+        }
     }
     args.push("--skip".into());
     args.push(next.to_string());
+    args.push("--confirm".into());
+    args.push((confirm as u8).to_string());
     let e = std::process::Command::new(std::env::current_exe().unwrap()).args(args).exec();
     panic!("re-exec failed: {}", e);
 }
@@ -722,7 +765,8 @@ fn main() {
     let skip = fv::arg_u64("skip", 0);
     let stats_path = format!("{}.stats.json", out_path);
     // continuing after a timeout: keep what the earlier process wrote
-    let (out, stats) = if skip > 0 {
+    let resumed = fv::arg("confirm").is_some();
+    let (out, stats) = if resumed {
         let old = std::fs::read_to_string(&out_path).unwrap_or_default();
         let mut o = Out::create(&out_path);
         for l in old.lines() {
@@ -743,6 +787,8 @@ fn main() {
         seen: HashSet::new(),
         stats,
         timed_out: false,
+        confirming: false,
+        retry: false,
     };
     let corpus_dir = fv::arg_str("corpus", concat!(env!("CARGO_MANIFEST_DIR"), "/../corpus/c05"));
     let only = fv::arg("arch");
@@ -791,12 +837,16 @@ fn main() {
         if (i as u64) < skip {
             continue;
         }
+        if i as u64 == skip && fv::arg_u64("confirm", 0) == 1 {
+            rec.confirming = true;
+        }
         rec.run(c);
         if rec.timed_out {
             // the watchdog leaked a thread that may be spinning or allocating: continue in a fresh process
             rec.out.finish();
             std::fs::write(&stats_path, serde_json::to_string(&rec.stats).unwrap()).unwrap();
-            restart_after_timeout(i as u64 + 1);
+            let again = rec.retry;
+            restart_after_timeout(if again { i as u64 } else { i as u64 + 1 }, again);
         }
     }
     let lines = rec.out.finish();
